@@ -19,7 +19,7 @@ def classify(case, idx, impl_out, model_out):
 
 
 def run(ctx):
-    proofs_ok = core.prove(ctx, "Iox2.Props.C16")
+    proofs_ok = core.prove(ctx)
     drv = core.build_driver(ctx)
     ok, err = core.build_harness(ctx)
     if not ok:
